@@ -140,7 +140,7 @@ func (p *stubLogProvider) ClearAndSet(msg *net.Message, c bus.Channel) error {
 		if err != nil {
 			return m, fmt.Errorf("read map size: %s", err)
 		}
-		m = make(map[string]LogLevel, size)
+		m = make(map[string]LogLevel)
 		for i := 0; i < int(size); i++ {
 			k, err := basic.ReadString(buf)
 			if err != nil {
@@ -558,12 +558,13 @@ func (p *stubLogManager) Log(msg *net.Message, c bus.Channel) error {
 		if err != nil {
 			return b, fmt.Errorf("read slice size: %s", err)
 		}
-		b = make([]LogMessage, size)
+		b = make([]LogMessage, 0)
 		for i := 0; i < int(size); i++ {
-			b[i], err = readLogMessage(buf)
+			v, err := readLogMessage(buf)
 			if err != nil {
 				return b, fmt.Errorf("read slice value: %s", err)
 			}
+			b = append(b, v)
 		}
 		return b, nil
 	}()
@@ -1055,12 +1056,13 @@ func (p *proxyLogListener) SubscribeOnLogMessages() (func(), chan []LogMessage, 
 				if err != nil {
 					return b, fmt.Errorf("read slice size: %s", err)
 				}
-				b = make([]LogMessage, size)
+				b = make([]LogMessage, 0)
 				for i := 0; i < int(size); i++ {
-					b[i], err = readLogMessage(buf)
+					v, err := readLogMessage(buf)
 					if err != nil {
 						return b, fmt.Errorf("read slice value: %s", err)
 					}
+					b = append(b, v)
 				}
 				return b, nil
 			}()
@@ -1100,12 +1102,13 @@ func (p *proxyLogListener) SubscribeOnLogMessagesWithBacklog() (func(), chan []L
 				if err != nil {
 					return b, fmt.Errorf("read slice size: %s", err)
 				}
-				b = make([]LogMessage, size)
+				b = make([]LogMessage, 0)
 				for i := 0; i < int(size); i++ {
-					b[i], err = readLogMessage(buf)
+					v, err := readLogMessage(buf)
 					if err != nil {
 						return b, fmt.Errorf("read slice value: %s", err)
 					}
+					b = append(b, v)
 				}
 				return b, nil
 			}()
